@@ -90,11 +90,20 @@ func (m *C03) AfterTx(e *eng.Engine, t *eng.TxRec) {
 							owed[kk] = new(big.Rat)
 						}
 						pay := new(big.Rat).Mul(q, new(big.Rat).SetInt(ask))
-						pay.Mul(pay, new(big.Rat).Sub(big.NewRat(1, 1), sf))
+						pay.Mul(pay, new(big.Rat).Sub(big.NewRat(1, 1), sf)) // sf: the rate in force at this message (see MsgGovSetFeeParams below)
 						owed[kk].Add(owed[kk], pay)
 						owedFills[kk]++
 					}
 				}
+			}
+		case *markettypes.MsgGovSetFeeParams:
+			// an earlier message of the same (successful) transaction changed the seller fee rate
+			if x.Fees != nil {
+				if r, err := ref.DecOrZero(x.Fees.SellerPercentageFee); err == nil {
+					sf = r
+				}
+			} else {
+				sf = new(big.Rat)
 			}
 		case *markettypes.MsgGovSendFromFeePool:
 			if x.Authority == m.Gov && t.Signers[m.Gov] {
